@@ -7,8 +7,13 @@ package router
 
 // A sealed router accepts no further routes; a route is added only under an identifier that was
 // absent, and every other entry keeps its controller (C05: routing is by identifier).
+// No registered controller is a nil interface (C14: dispatching to a registered route cannot be a
+// method call on nil). Established here: registration itself calls route.ID().
+//@ macro routesNonNil(r) = forall k int :: mapHas(r.routes, k) ==> tag(mapGet(r.routes, k)) != 0
 //@ func (r *Router) AddRoute(route) (err)
 //@   requires[base] r != nil
+//@   requires[C14]  tag(route) != 0 && r.routes != nil
+//@   ensures[C14]   old(routesNonNil(r)) ==> routesNonNil(r)
 //@   modifies mapof(r.routes)
 //@   ensures[C05] old(r.sealed) ==> err != nil
 //@   ensures[C05] err != nil ==> forall k int :: mapHas(r.routes, k) == old(mapHas(r.routes, k)) && mapGet(r.routes, k) == old(mapGet(r.routes, k))
